@@ -304,7 +304,7 @@ Qed.
 (** every handler keeps the store free of names that differ only in case *)
 Lemma h_step_inv st op : h_inv st -> h_inv (fst (h_step st op)).
 Proof.
-  intro Hi. pose proof Hi as [Hv _]. destruct op as [s|s|src dst|name from d]; cbn [h_step].
+  intro Hi. pose proof Hi as [Hv _]. destruct op as [s|s|src dst|name from d|]; cbn [h_step].
   - destruct (h_canon st s); [destruct (h_lookup m st)|]; exact Hi.
   - destruct (h_canon st s) as [c|]; [|exact Hi]. destruct (h_lookup c st); [|exact Hi]. apply h_inv_remove. exact Hi.
   - destruct (h_canon st src) as [s|] eqn:Es; [|exact Hi]. destruct (h_canon st dst) as [d|] eqn:Ed; [|exact Hi].
@@ -313,6 +313,7 @@ Proof.
   - destruct (h_canon st name) as [c|] eqn:Ec; [|exact Hi]. cbv zeta.
     destruct (m_is_valid (m_parse from)); [|exact Hi]. destruct (h_lookup (m_parse from) st); [|exact Hi]. cbn [fst].
     destruct (h_canon_spec st name c Hv Ec) as (_ & Fc & _ & Hor). apply h_inv_set; assumption.
+  - exact Hi.
 Qed.
 
 Lemma h_run_inv ops st : h_inv st -> h_inv (h_run st ops).
